@@ -224,6 +224,19 @@ def get_ocaml(ctx, engine, workdir):
     return exe
 
 
+def private_copy(path, workdir):
+    """the shared driver may be pruned or rebuilt by a concurrent check of another tree: work on a copy"""
+    dst = os.path.join(workdir, os.path.basename(path))
+    for attempt in range(3):
+        try:
+            shutil.copy2(path, dst)
+            os.chmod(dst, 0o755)
+            return dst
+        except OSError:
+            time.sleep(1)
+    return path
+
+
 def run_ocaml(mode, inp, engine="front"):
     exe = OCAML_EXE.get(engine) or os.path.join(common.BUILD, "ocaml", engine, "run")
     p = subprocess.run([exe] + ([mode] if mode else []), input=inp, stdout=subprocess.PIPE, stderr=subprocess.PIPE,
@@ -585,6 +598,50 @@ def inject_fault(rng, src):
     return src, "none"
 
 
+# --- enum initialisers: constants, references to earlier / later / own enumerators, other enums, cycles ------
+def enum_init_cases(rng, count):
+    out = []
+    wraps = ["%s", "(%s)", "-(%s)", "(%s) + 1", "1 + %s", "(%s) * 2", "((%s))", "%s + %s", "(%s) - (%s)", "~~~(%s)", "(%s) <<< 1",
+             "(%s) / 0", "(%s) %% 0", "(0-2147483647-1) / ((%s) - (%s) - 1)"]
+    for i in range(count):
+        n = rng.randint(1, 5)
+        names = ["ABCDEF"[k] for k in range(n)]
+        other = rng.random() < 0.3
+        items = []
+        for k, nm in enumerate(names):
+            c = rng.random()
+            if c < 0.25:
+                items.append(nm)
+                continue
+            refs = []
+            for _ in range(2):
+                d = rng.random()
+                if d < 0.3:
+                    refs.append(str(rng.choice([0, 1, 7, 2147483647])))
+                elif d < 0.45 and other:
+                    refs.append("F::" + rng.choice(["X", "Y"]))
+                elif d < 0.5:
+                    refs.append("E::Nope")
+                else:   # earlier, later or own enumerator: later/own ones make cycles possible
+                    refs.append("E::" + rng.choice(names))
+            w = rng.choice(wraps)
+            init = w % tuple(refs[:w.count("%s")])
+            items.append("%s = %s" % (nm, init))
+        src = "enum E { %s }\n" % ", ".join(items)
+        if other:
+            src += "enum F { X = %s, Y }\n" % rng.choice(["1", "(E::A)", "E::A + 1", "(F::Y)", "F::X"])
+        tail = rng.choice(["func main() -> int { 0 }\n", "func main() -> int { E::A + 0 }\n", "",
+                           "func main() -> int { match (E::A) { E::A -> 1; else -> 0; } }\n"])
+        out.append(("enum-init%d" % i, (src + tail).encode()))
+    # the plain cycles of every length, bare and parenthesised
+    for L in range(1, 5):
+        for fmt in ("E::%s", "(E::%s)", "(E::%s) + 1", "-(E::%s)"):
+            names = ["ABCD"[k] for k in range(L)]
+            items = ["%s = %s" % (names[k], fmt % names[(k + 1) % L]) for k in range(L)]
+            out.append(("enum-cycle%d.%s" % (L, slug(fmt.replace("%s", "x"), 2)), ("enum E { %s, Z }\nfunc main() -> int { 0 }\n" % ", ".join(items)).encode()))
+    return out
+
+
 # --- raw bytes ------------------------------------------------------------------------------------
 def raw_bytes(rng, base):
     k = rng.randint(0, 7)
@@ -682,6 +739,192 @@ def nesting_cases(depths):
             ("range-dims", b"func main() -> int { let a = [ 1 ] : int; a[" + b", ".join([b"0"] * d) + b"] }"),
         ]
     return out
+
+
+# --- grammar-driven syntax errors -------------------------------------------------------------------
+# For every rule A -> X1 .. Xn of front/parser.y and every position i (0..n) a sentence is built that
+# drives the parser into the state "X1 .. Xi of this rule are on the stack" (shortest left context of A +
+# shortest expansion of X1 .. Xi) and then meets an illegal token: the error unwinds exactly through the
+# %destructors of those symbols, or through the rule's own `error` recovery action.  Terminal texts come
+# from the keyword rules of front/scanner.l; both files are read from the CURRENT tree, so a new rule,
+# a new recovery rule or a new nonterminal brings its own inputs.
+LITERAL_TOKENS = {"TOK_ID": "x", "TOK_NUM_INT": "1", "TOK_NUM_LONG": "1L", "TOK_NUM_FLOAT": "1.5", "TOK_NUM_DOUBLE": "1.5d",
+                  "TOK_NUM_CHAR": "'c'", "TOK_NUM_STRING": "\"s\"", "TOK_MODULE_REF": "\n", "error": "@"}
+
+
+def strip_c_actions(text):
+    out, i, n, depth = [], 0, len(text), 0
+    while i < n:
+        c = text[i]
+        if text.startswith("/*", i):
+            j = text.find("*/", i + 2)
+            i = n if j < 0 else j + 2
+            continue
+        if depth > 0 and c == '"':
+            i += 1
+            while i < n and text[i] != '"':
+                i += 2 if text[i] == "\\" else 1
+            i += 1
+            continue
+        if c == "'" and i + 2 < n and text[i + 2] == "'":
+            if depth == 0:
+                out.append(text[i:i + 3])
+            i += 3
+            continue
+        if c == "{":
+            depth += 1
+        elif c == "}":
+            depth -= 1
+        elif depth == 0:
+            out.append(c)
+        i += 1
+    return "".join(out)
+
+
+def read_grammar(repo):
+    y = open(os.path.join(repo, "front", "parser.y")).read()
+    parts = y.split("\n%%")
+    decls, body = parts[0], parts[1]
+    destructors = re.findall(r"^%destructor\s*\{.*?\}\s*(\S+)", decls, re.M)
+    m = re.search(r"^%start\s+(\w+)", decls, re.M)
+    start = m.group(1) if m else None
+    rules = []
+    for chunk in strip_c_actions(body).split(";"):
+        toks = re.findall(r"'.'|%prec|[A-Za-z_][A-Za-z0-9_]*|[:|]", chunk)
+        if len(toks) < 2 or toks[1] != ":":
+            continue
+        lhs, rhs, alts = toks[0], [], []
+        k = 2
+        while k < len(toks):
+            if toks[k] == "%prec":
+                k += 2
+                continue
+            if toks[k] == "|":
+                alts.append(rhs); rhs = []
+            else:
+                rhs.append(toks[k])
+            k += 1
+        alts.append(rhs)
+        for a in alts:
+            rules.append((lhs, a))
+    if start is None and rules:
+        start = rules[0][0]
+    return start, rules, destructors
+
+
+def read_token_texts(repo):
+    l = open(os.path.join(repo, "front", "scanner.l")).read()
+    texts = dict(LITERAL_TOKENS)
+    for m in re.finditer(r"^(\S+)\s*\{\s*\n(.*?)^\}", l, re.S | re.M):
+        pat, act = m.group(1), m.group(2)
+        r = re.search(r"return\s+(TOK_\w+)\s*;", act)
+        if not r or r.group(1) in texts or pat.startswith("<"):
+            continue
+        if re.match(r"^[a-z_]+$", pat):
+            texts[r.group(1)] = pat
+        elif re.match(r'^"[^"]+"$', pat):
+            texts[r.group(1)] = pat[1:-1].replace("\\", "")
+    return texts
+
+
+def grammar_error_cases(repo, illegal=(")", "@", "func", "")):
+    """-> (cases [(name, bytes)], info dict)"""
+    start, rules, destructors = read_grammar(repo)
+    texts = read_token_texts(repo)
+    nts = set(l for l, _ in rules)
+
+    def term_text(s):
+        if s.startswith("'"):
+            return s[1]
+        return texts.get(s)
+
+    INF = 10 ** 9
+    best = {}                      # nonterminal -> shortest token list
+    changed = True
+    while changed:
+        changed = False
+        for lhs, rhs in rules:
+            seq, ok = [], True
+            for s in rhs:
+                if s in nts:
+                    if s not in best:
+                        ok = False; break
+                    seq += best[s]
+                else:
+                    tx = term_text(s)
+                    if tx is None or s == "error":
+                        ok = False; break
+                    seq.append(tx)
+            if ok and (lhs not in best or len(seq) < len(best[lhs])):
+                best[lhs] = seq; changed = True
+
+    def expand(syms):
+        out = []
+        for s in syms:
+            if s in nts:
+                if s not in best:
+                    return None
+                out += best[s]
+            else:
+                tx = term_text(s)
+                if tx is None:
+                    return None
+                out.append(tx)
+        return out
+
+    # up to KCTX shortest DISTINCT left contexts per nonterminal (coming from different parent rules), so that a
+    # construct is also tried inside its longer hosts (e.g. a parameter inside a NAMED function header)
+    KCTX = 4
+    prefix = {start: [[]]}
+    changed = True
+    rounds = 0
+    while changed and rounds < 40:
+        changed = False
+        rounds += 1
+        for lhs, rhs in rules:
+            if lhs not in prefix:
+                continue
+            for i, s in enumerate(rhs):
+                if s in nts:
+                    e = expand(rhs[:i])
+                    if e is None:
+                        break
+                    for pl in list(prefix[lhs]):
+                        cand = pl + e
+                        cur = prefix.setdefault(s, [])
+                        if cand in cur:
+                            continue
+                        if len(cur) < KCTX or len(cand) < len(cur[-1]):
+                            cur.append(cand)
+                            cur.sort(key=len)
+                            del cur[KCTX:]
+                            changed = True
+    cases, unreachable, seen = [], [], set()
+    for ri, (lhs, rhs) in enumerate(rules):
+        if lhs not in prefix:
+            unreachable.append(lhs)
+            continue
+        for ci, ctx in enumerate(prefix[lhs]):
+            for i in range(len(rhs) + 1):
+                head = expand([s for s in rhs[:i] if s != "error"])
+                if head is None:
+                    continue
+                tail = expand([s for s in rhs[i:] if s != "error"]) or []
+                for bad in illegal:
+                    for with_tail in (False, True):
+                        toks = ctx + head + ([bad] if bad else []) + (tail if with_tail else [])
+                        txt = " ".join(toks)
+                        if txt in seen:
+                            continue
+                        seen.add(txt)
+                        cases.append(("r%d.%s.c%d.p%d.%s%s" % (ri, lhs, ci, i, {")": "rparen", "@": "at", "func": "func", "": "eof"}.get(bad, "x"),
+                                                                  ".t" if with_tail else ""), txt.encode()))
+    info = {"rules": len(rules), "nonterminals": len(nts), "error_recovery_rules": [" ".join([l + ":"] + r) for l, r in rules if "error" in r],
+            "nonterminals_with_destructor": len([d for d in destructors if d in nts]),
+            "nonterminals_without_destructor": sorted(n for n in nts if n not in destructors),
+            "unreachable_nonterminals": sorted(set(unreachable)), "terminals_without_text": sorted(
+                set(s for _, r in rules for s in r if s not in nts and term_text(s) is None)), "sentences": len(cases)}
+    return cases, info
 
 
 # --- `use` graphs -------------------------------------------------------------------------------------
@@ -905,6 +1148,16 @@ def build_search_cases(ctx, rng, workdir, scale):
             p, nm = inject_fault(rng, p)
             names.append(nm)
         cases.append(Case("g%d" % i, "generated-fault", p, "str", None, {"faults": names}))
+    for nm, d in enum_init_cases(rng, int(600 * scale)):
+        cases.append(Case("E." + nm, "enum-initialisers", d))
+    # (3b) grammar-driven syntax errors: every rule of parser.y x every position x illegal token
+    try:
+        gcases, ginfo = grammar_error_cases(common.REPO)
+    except Exception as e:          # parser.y / scanner.l no longer readable by the tiny reader
+        gcases, ginfo = [], {"error": str(e)[:300]}
+    ctx.coverage["grammar_driven_syntax_errors"] = ginfo
+    for nm, d in gcases:
+        cases.append(Case("Y." + nm, "grammar-error", d))
     # (4) raw bytes
     for i in range(int(3000 * scale)):
         d, k = raw_bytes(rng, rng.choice(srcs))
@@ -1190,6 +1443,7 @@ def run(ctx):
     if get_ocaml(ctx, "front", workdir) is None:
         shutil.rmtree(workdir, ignore_errors=True)
         return
+    drv, pdrv = private_copy(drv, workdir), private_copy(pdrv, workdir)
     ctx.coverage["timing_s"] = {"gen+coq": round(t1 - t0, 1), "builds": round(time.time() - t1, 1)}
     try:
         if getattr(ctx, "replay", None):
